@@ -18,12 +18,13 @@
 (*   v     : view id; 1 = the root, slices are numbered as they are made   *)
 (*   args  : seek <<offset, whence>>; read <<>> (default) or <<n>>;        *)
 (*           write <<data>>; slice <<a, b>>, each <<>> (absent) or <<i>>;  *)
+(*           close <<>> or <<"with">> (closed by leaving a with block);    *)
 (*           otherwise <<>>                                                *)
 (*   out   : <<"raise", class name>> or <<"ok", value>>; value: read the   *)
 (*           bytes; write <<count>>; tell <<p>>; address <<a>>; len <<n>>; *)
 (*           slice <<new id, len(new), addr, tell>> with addr / tell the   *)
 (*           new view's address and tell(), <<value>> or <<>> if that      *)
-(*           raised; otherwise <<>>                                        *)
+(*           raised (len(new) is -1 if len() raised); otherwise <<>>       *)
 (*   acc   : the controller accesses the operation caused, in order        *)
 (*           <<kind, address, length, data, x, y>> (see FileView)          *)
 (*   warn  : number of TruncationWarnings issued                           *)
